@@ -627,6 +627,46 @@ def listdiscipline(ck):
             ck.ob("C01-O7", sitestr(pf), ok, "pipeline() returns the child" if ok else "pipeline() returns %s" % [describe(r.get("e")) for r in rs], key="SimplePipeline::pipeline|returns")
         else:
             ck.ob("C01-O7", sitestr(pf), None, "child pipeline is not bound to a local; idiom not recognised")
+    # ---- O9: overrides of Pipeline::process in the pipeline classes
+    ck.rule("C01-O9", "a pipeline class that overrides process() still evaluates its handler list: every path calls the base implementation with the caller's message "
+            "(the asynchronous hand-off of OwnThreadHandler is C03's business)")
+    pp = F.fn(P + "::process")
+    verified = {pp.id}
+    todo = list(F.overriders.get(pp.id, ()))
+    n_ov = 0
+    while todo:
+        oid = todo.pop()
+        of = F.fns.get(oid)
+        if of is None or of.body is None or oid in verified:
+            continue
+        todo += list(F.overriders.get(oid, ()))
+        if strip_tmpl(of.cls or "") == "QtLogger::OwnThreadHandler":
+            continue
+        n_ov += 1
+        ck.touch(of)
+        go = Graph(of)
+        mdecl = of.params[0].get("decl") if of.params else None
+        base = [n_ for n_ in of.calls() if n_.get("fn") in verified and n_.get("qualified") and n_.get("args") is not None and
+                (not n_.get("args") or is_ref_to(skip_copies(n_["args"][0]), mdecl))]
+        bs = set(go.sites_of_nodes(base)) if base else set()
+        short = strip_tmpl(of.name).replace("QtLogger::", "")
+        nonempty = lambda n_: False if (isinstance(n_, dict) and n_.get("k") == "call" and strip_tmpl(n_.get("callee") or "") in ("QList::isEmpty", "QList::empty") and
+                                        (is_this_field(unwrap_ptr(n_.get("obj")), P + "::m_handlers") or is_call(unwrap_ptr(n_.get("obj")), P + "::handlers"))) else None
+        if base and go.must_pass(bs, keep=go.projector(nonempty)):
+            rs = returns(of)
+            okr = all((isinstance(skip_copies(r.get("e")), dict) and (skip_copies(r["e"]).get("k") == "bool" and skip_copies(r["e"]).get("v") or skip_copies(r["e"]).get("fn") in verified)) for r in rs)
+            ck.ob("C01-O9", sitestr(of), True if okr else None, "%s evaluates the handler list on every path (a non-empty list is never skipped)" % short, key="%s|skips-handlers" % short)
+            verified.add(oid)
+            continue
+        # a path leaves without the base implementation: a plain skip (the message is not handed to anything on that path) is definite
+        region = go.reach([go.entry], blocked=bs, keep=go.projector(nonempty))
+        uses = [n_ for k_ in region for n_ in walk(go.el.get(k_) or {}) if isinstance(n_, dict) and n_.get("k") == "call" and
+                any(is_ref_to(skip_copies(a_), mdecl) for a_ in (n_.get("args") or []) if isinstance(a_, dict)) and n_.get("fn") not in verified]
+        ck.ob("C01-O9", sitestr(of), False if not uses else None,
+              "%s overrides Pipeline::process() and has a path that returns without evaluating a non-empty handler list (the message is not handed to anything on it): the handlers of such a pipeline are objects "
+              "of their own (shared with sibling branches, stateful, user-defined) and in-order evaluation runs them" % short if not uses else
+              "%s overrides Pipeline::process() and hands the message to %s on a path that does not evaluate the handler list" % (short, describe(uses[0])[:40]), key="%s|skips-handlers" % short)
+    ck.ob("C01-O9", sitestr(pp), True, "%d override(s) of Pipeline::process outside OwnThreadHandler" % n_ov, key="Pipeline::process|overrides")
     # ---- O8: the fluent builder adds at the end
     ck.rule("C01-O8", "insertion order = evaluation order: every SimplePipeline builder method adds its handler through Pipeline::append (end of the list), never through a typed / positional insert")
     mutators = set()
